@@ -12,7 +12,7 @@ import torch
 from ..core import History, Inconclusive, Stats, Violation, bit_equal, thash
 from ..gen import (STOCK_KINDS, features_for, gen_barrier, gen_clauses, gen_criterion,
                    gen_derivative, gen_primary)
-from ..world import (DT, DTN, HAS_VOL, OPTION_KINDS, RecModel, World, abstract_state, build_criterion,
+from ..world import (cast_module_outputs, DT, DTN, HAS_VOL, OPTION_KINDS, RecModel, World, abstract_state, build_criterion,
                      build_feature, eff_dtype, feature_name)
 
 ID = "C16"
@@ -306,16 +306,6 @@ def generate(rng):
 
 # ----------------------------------------------------------------------------- execution
 
-def _cast_module_outputs(flist, dtype):
-    """Hedger.inputs is not a Module, so hedger.to() does not reach modules inside ModuleOutput
-    features; a user has to cast them as well."""
-    from pfhedge.features import ModuleOutput
-    for f in flist.features:
-        if isinstance(f, ModuleOutput):
-            f.to(dtype)
-            _cast_module_outputs(f.inputs, dtype)
-
-
 def _check_buffers(world, refs, snap, skip_pids, site, stats, seq):
     """old tensor objects unchanged in value; current buffers of uninvolved primaries equal the snapshot"""
     for pid in refs:
@@ -560,7 +550,7 @@ def _execute(program, stats, hist):
         elif name == "hedger_to":
             h = world.hedgers[op["hedger"]]
             h.to(DT[op["dtype"]])
-            _cast_module_outputs(h.inputs, DT[op["dtype"]])
+            cast_module_outputs(h.inputs, DT[op["dtype"]])
             stats.probe("hedger_cast")
             hist.add(actor=op.get("actor"), op="hedger_to", hedger=op["hedger"], dtype=op["dtype"])
         elif name == "instrument_to":
